@@ -181,15 +181,32 @@ class LoopMixin:
         if run.choose([("iterate", k < n), ("exit", k == n)], header) == 0:
             self.assign_target(node.target, elem(k), frame)
             self.fire("loop_iter", header, k)
+            if not hasattr(self, "loop_heads"):
+                self.loop_heads, self.iter_call_start = [], [0]
+            self.loop_heads.append(dict(self.visible_locals(frame)))
+            self.iter_call_start.append(len(run.calls))
+            how = "normal"
             try:
-                self.exec_block(node.body, frame)
-            except E._Continue:
-                pass
-            except E._Break:
+                try:
+                    self.exec_block(node.body, frame)
+                except E._Continue:
+                    how = "continue"
+                except E._Break:
+                    how = "break"
+                prop_step = set(spec.get("property_level", []))
+                for lbl, ex in spec.get("step", {}).items():
+                    self.ctx.oblige(self, "post" if lbl in prop_step else "loop-step", f"{header}:{lbl}",
+                                    self.eval_inv(ex, frame, {"_k": VInt(k), "_n": VInt(n), "_exit": VStr(how)}),
+                                    "", lbl not in prop_step, text=ex)
+            finally:
+                self.loop_heads.pop()
+                self.iter_call_start.pop()
+            if how == "break":
                 return
+            plevel = set(spec.get("property_level", []))
             for i, inv in enumerate(invs):
-                self.ctx.oblige(self, "loop-step", f"{header}#{i}",
-                                self.eval_inv(inv, frame, {"_k": VInt(k + 1), "_n": VInt(n)}), "", True, text=inv)
+                self.ctx.oblige(self, "always" if inv in plevel else "loop-step", f"{header}#{i}",
+                                self.eval_inv(inv, frame, {"_k": VInt(k + 1), "_n": VInt(n)}), "", inv not in plevel, text=inv)
             raise E.PathEnd()
         self.exec_block(node.orelse, frame)
 
